@@ -504,8 +504,25 @@ def handlePlint (args res : List String) : String :=
 def handleConst (res : List String) : String :=
   verdict [showF64 intersectionErrorF, showF64 dblEpsilonF, showF64 dblErrorF, showF64 sqrt3F, showF64 tErr] res
 
+/-- `plproj n v… q = rx ry rz rn dq dmin`: Polyline.Project of an arbitrary point.  Judged on Go's own distances (as the other
+    polyline functions): no panic, the next-vertex index is in range, and the distance to the returned point does not exceed the
+    minimum over the segments (both as squared chords) by more than 2^-46. -/
+def handlePlproj (args res : List String) : String :=
+  if res.any (fun t => t.startsWith "PANIC") then "propfail polyline-project-panic " ++ " ".intercalate res else
+  match args.head?.bind String.toNat?, res with
+  | some n, [_, _, _, rn, dq, dmin] =>
+    match rn.toNat?, parseF64? dq, parseF64? dmin with
+    | some rn, some dq, some dmin =>
+      if rn < 1 || rn ≥ n + 1 then "propfail polyline-project-index-out-of-range"
+      else if dq.isNaN || dmin.isNaN then "propfail polyline-project-nan"
+      else if F64.gt dq (F64.add dmin ⟨0x3D10000000000000⟩) then "propfail polyline-project-not-closest"
+      else "ok"
+    | _, _, _ => "bad plproj-parse"
+  | _, _ => "bad plproj-arity"
+
 def handle (op : String) (args res : List String) : Option String :=
-  if op == "isect" then some (handleIsect args res)
+  if op == "plproj" then some (handlePlproj args res)
+  else if op == "isect" then some (handleIsect args res)
   else if op == "pedist" then some (handlePedist args res)
   else if op == "eedist" then some (handleEedist args res)
   else if op == "plint" then some (handlePlint args res)
